@@ -648,9 +648,9 @@ theorem accepted_credential_has_well_formed_status_entries (cfg : Cfg) (P : Cryp
         exact ⟨h3, a, b, d, e, f⟩
   · cases hd
 
-example : entryValidOf true true { id := "https://x/s#1", typ := statusListEntryType, purpose := "revocation", index := some 1, listCred := "https://x/s" } = true ∧
-    entryValidOf true true { id := "https://x/s", typ := statusListEntryType, purpose := "revocation", index := some 1, listCred := "https://x/s" } = false ∧
-    entryValidOf true true { id := "https://x/s#1", typ := statusListEntryType, purpose := "revocation", index := none, listCred := "https://x/s" } = false := by decide
+example : entryValidOf true true { id := "https://x/s#1", typ := statusListEntryType, purpose := "revocation", indexText := "1", listCred := "https://x/s" } = true ∧
+    entryValidOf true true { id := "https://x/s", typ := statusListEntryType, purpose := "revocation", indexText := "1", listCred := "https://x/s" } = false ∧
+    entryValidOf true true { id := "https://x/s#1", typ := statusListEntryType, purpose := "revocation", indexText := "1e0", listCred := "https://x/s" } = false := by decide
 
 def statusEntryValidateReturnsSrc : List String :=
   ["e.ID == e.StatusListCredential => errors.New(\"StatusList2021Entry.id is the same as the StatusList2021Entry.statusListCredential\")", "e.Type != StatusList2021EntryType => errors.New(\"StatusList2021Entry.type must be StatusList2021Entry\")", "e.StatusPurpose == \"\" => errors.New(\"StatusList2021Entry.statusPurpose is required\")", "n,err := strconv.Atoi(e.StatusListIndex); err != nil || n < 0 => errors.New(\"invalid StatusList2021Entry.statusListIndex\")", "_,err := url.ParseRequestURI(e.StatusListCredential); err != nil => fmt.Errorf(\"parse StatusList2021Entry.statusListCredential URL: %w\",err)"]
